@@ -65,6 +65,7 @@ OPTS = st.fixed_dictionaries({
     "subsection": st.sampled_from([None, "Sub"]),
     "title": st.sampled_from(["Test", "Talk:Foo/bar", "kissa"]),
     "timeout_case": st.just(False),
+    "stale": st.integers(0, 31),
 })
 
 
@@ -122,11 +123,15 @@ def check_case(ctx, text, opts):
     # leave something in every list (public recorders), under a stale
     # subsection, before the page is started
     ctx.start_subsection("stale-sub")
-    ctx.error("e0")
-    ctx.warning("w0")
-    ctx.debug("d0")
-    ctx.note("n0")
-    ctx.wiki_notice("k0")
+    # which recorders were used on the previous page: every subset must be
+    # cleared by start_page, not only "all five" (stale = bit mask)
+    stale = opts.get("stale", 31)
+    ctx.start_page("Previous page")
+    ctx.start_subsection("stale-sub")
+    for bit, rec in enumerate((ctx.error, ctx.warning, ctx.debug, ctx.note,
+                               ctx.wiki_notice)):
+        if stale >> bit & 1:
+            rec("stale-%d" % bit)
     ctx.start_page(title)
     for name in ("errors", "warnings", "debugs", "notes", "wiki_notices"):
         if getattr(ctx, name) != []:
@@ -299,6 +304,14 @@ def shard(idx, nshards, seed, n, known, quick):
     for i, (t, o) in enumerate(work):
         if i % nshards == idx:
             one(t, o, "fixed")
+    # every subset of the five recorders used on the previous page (twice in
+    # a row: the second start_page sees what the first page left)
+    for stale in range(32):
+        if stale % nshards == idx:
+            for text in ("plain", "{{tb|x}}{{nope}}"):
+                one(text, dict(base, reps=1, stale=stale), "stale-subsets")
+                one(text, dict(base, reps=1, stale=stale, api="parse"),
+                    "stale-subsets")
     # every frame-API misuse (raw / caught by the module / caught and followed
     # by a good callback), 120 flat repetitions on one page
     for i, f in enumerate(lua_modules.MISUSE_FNS):
